@@ -1,19 +1,64 @@
 package main
 
 import (
+	"flag"
 	"fmt"
-	"golang.org/x/tools/go/packages"
-	"golang.org/x/tools/go/ssa"
-	"golang.org/x/tools/go/ssa/ssautil"
+	"os"
+	"strconv"
+	"time"
+
+	"gocv/props"
+	"gocv/sx"
 )
 
 func main() {
-	cfg := &packages.Config{Mode: packages.LoadAllSyntax, Dir: "/repo", BuildFlags: []string{"-tags=verif"}}
-	pkgs, err := packages.Load(cfg, "./...")
-	if err != nil {
-		panic(err)
+	repo := flag.String("repo", "/repo", "repository under verification")
+	verif := flag.String("verif", "/verif", "verification directory (evidence, replays, known findings)")
+	verbose := flag.Bool("v", false, "verbose")
+	flag.Parse()
+	args := flag.Args()
+	if len(args) < 1 {
+		fmt.Println("usage: gocv check <ID> <quick|thorough> | gocv list <prefix>")
+		os.Exit(2)
 	}
-	prog, _ := ssautil.AllPackages(pkgs, ssa.InstantiateGenerics|ssa.BareInits)
-	prog.Build()
-	fmt.Println(len(pkgs))
+	t0 := time.Now()
+	P, err := sx.Load(*repo)
+	if err != nil {
+		fmt.Fprintln(os.Stderr, "load error:", err)
+		if len(args) >= 2 && args[0] == "check" {
+			// a tree that does not load cannot be verified: report it
+			fmt.Printf("VIOLATION property=%s replay=/dev/null obligation=\"load\" no-failing-input-found\n", args[1])
+			os.Exit(1)
+		}
+		os.Exit(2)
+	}
+	P.LoadSecs = time.Since(t0).Seconds()
+	switch args[0] {
+	case "list":
+		pre := ""
+		if len(args) > 1 {
+			pre = args[1]
+		}
+		for _, n := range P.FuncsMatching(pre) {
+			fmt.Println(n)
+		}
+		for _, l := range P.InitLog {
+			fmt.Println("  init:", l)
+		}
+	case "check":
+		tier := "quick"
+		if len(args) > 2 {
+			tier = args[2]
+		}
+		if t := os.Getenv("VERIF_TIER"); t != "" && len(args) <= 2 {
+			tier = t
+		}
+		var seed int64 = 1
+		if s := os.Getenv("VERIF_SEED"); s != "" {
+			if v, err := strconv.ParseInt(s, 10, 64); err == nil {
+				seed = v
+			}
+		}
+		os.Exit(props.Run(P, args[1], tier, seed, *verif, *verbose))
+	}
 }
